@@ -64,6 +64,26 @@ def run_one(d, checks):
 
 def main():
     args = sys.argv[1:]
+    if args and args[0] == "--final":
+        # re-validate: for every seeded change run the check of its own
+        # property and every check that reported it before
+        base = os.path.join(ROOT, "seeded")
+        missed = []
+        for name in sorted(os.listdir(base)):
+            d = os.path.join(base, name)
+            if not os.path.exists(os.path.join(d, "patch.diff")):
+                continue
+            checks = [json.load(open(os.path.join(d, "meta.json")))["property"]]
+            rp = os.path.join(d, "result.json")
+            if os.path.exists(rp):
+                for c in json.load(open(rp)).get("caught_by", []):
+                    if c not in checks:
+                        checks.append(c)
+            res = run_one(d, checks)
+            if res is not None and not res["caught_by"]:
+                missed.append(name)
+        print("FINAL: missed = %s" % missed)
+        return 0
     if args and args[0] == "--all":
         base = os.path.join(ROOT, "seeded")
         dirs = []
